@@ -29,8 +29,10 @@ def model_identity(a):
 def gen_checksums(rng, n=None):
     n = n or rng.choice([1, 1, 2, 3])
     out = {}
+    style = rng.random()
     for t in rng.sample(CHECKSUM_TYPES, n):
-        out[t] = text.chars(rng, HEX, CHECKSUM_LEN[t], CHECKSUM_LEN[t])
+        alphabet = HEX if style < 0.8 else "0123456789ABCDEF" if style < 0.9 else HEX + "ABCDEF"
+        out[t] = text.chars(rng, alphabet, CHECKSUM_LEN[t], CHECKSUM_LEN[t])
     return out
 
 
@@ -59,6 +61,8 @@ def gen_image_attrs(rng, itype=None, iformat=None, force=None):
     }
     if unified and rng.random() < 0.8:
         a["additional_variants"] = rng.sample(VARIANT_POOL, rng.randint(1, 3))
+        if rng.random() < 0.25:
+            a["additional_variants"] = a["additional_variants"] + [a["additional_variants"][0]] + rng.sample(VARIANT_POOL, 2)
     if force == "size-large":
         a["size"] = rng.choice([2 ** 32 + 1, 2 ** 40, 2 ** 53 + 1, 2 ** 63, 2 ** 64 + 5])
     if force == "volume-null":
